@@ -186,6 +186,8 @@ def gen_cases(tier, seed):
                       'api': rng.choice(['get', 'get', 'mget', 'mget_glob',
                                          'mget_two_globs']),
                       'follow': rng.random() < 0.3,
+                      # modes and times are applied to what was created
+                      'preserve': i % 3 == 0,
                       'version': rng.choice([3, 3, 4]),
                       'cseed': rng.randrange(1 << 30)})
 
@@ -521,23 +523,27 @@ def _run_get(case, mon, viol):
                         t = asyncio.ensure_future(sftp.get(
                             '/src', dest, recurse=True,
                             follow_symlinks=case['follow'],
+                            preserve=case.get('preserve', False),
                             error_handler=errs.append))
                     elif case['api'] == 'mget_two_globs':
                         # the same directory is scanned for two patterns
                         t = asyncio.ensure_future(sftp.mget(
                             ['/src/o*', '/src/*'], dest, recurse=True,
                             follow_symlinks=case['follow'],
+                            preserve=case.get('preserve', False),
                             error_handler=errs.append))
                     elif case['api'] == 'mget_glob':
                         # every entry of the listing is a top-level source
                         t = asyncio.ensure_future(sftp.mget(
                             '/src/*', dest, recurse=True,
                             follow_symlinks=case['follow'],
+                            preserve=case.get('preserve', False),
                             error_handler=errs.append))
                     else:
                         t = asyncio.ensure_future(sftp.mget(
                             '/src', dest, recurse=True,
                             follow_symlinks=case['follow'],
+                            preserve=case.get('preserve', False),
                             error_handler=errs.append))
                     env.san.harness_tasks.add(t)
                     for _ in range(200):
